@@ -157,21 +157,31 @@ pub fn starts_with_parenthese(statement: &Statement) -> bool {
 
 fn expression_ends_with_prefix(expression: &Expression) -> bool {
     match expression {
-        Expression::Binary(binary) => expression_ends_with_prefix(binary.right()),
+        Expression::Binary(binary) => {
+            // the right operand may be written in parentheses
+            binary.operator().right_needs_parentheses(binary.right())
+                || expression_ends_with_prefix(binary.right())
+        }
         Expression::Call(_)
         | Expression::Parenthese(_)
         | Expression::Identifier(_)
         | Expression::Field(_)
         | Expression::Index(_)
         | Expression::TypeInstantiation(_) => true,
-        Expression::Unary(unary) => expression_ends_with_prefix(unary.get_expression()),
+        Expression::Unary(unary) => {
+            let operand = unary.get_expression();
+            // a binary operand is written in parentheses (except `^`, which binds tighter)
+            matches!(operand, Expression::Binary(binary) if !binary.operator().precedes_unary_expression())
+                || expression_ends_with_prefix(operand)
+        }
         Expression::If(if_expression) => {
             expression_ends_with_prefix(if_expression.get_else_result())
         }
+        // infinite and NaN values are written `(1/0)`, `(-1/0)`, `(0/0)`
+        Expression::Number(number) => !number.compute_value().is_finite(),
         Expression::False(_)
         | Expression::Function(_)
         | Expression::Nil(_)
-        | Expression::Number(_)
         | Expression::String(_)
         | Expression::InterpolatedString(_)
         | Expression::Table(_)
